@@ -422,6 +422,11 @@ func main() {
 			case *ast.ValueSpec:
 				for i, n := range x.Names {
 					local[n.Name] = true
+					if len(x.Values) == 0 {
+						// `var x T` without initialiser: the zero value - a struct value of its own, or a nil map / slice / pointer
+						// (a write through which panics instead of reaching anything)
+						fresh[n.Name] = true
+					}
 					if i < len(x.Values) && isFresh(x.Values[i]) {
 						fresh[n.Name] = true
 					}
